@@ -21,11 +21,15 @@ def withAct {α} (mk : Nat → Act) (body : M α) : M α := do
   | .ok a => pure a
   | .error e => throw e
 
-/-- catch a runtime diagnostic of class `notDefined` -/
+/-- catch a runtime diagnostic of class `notDefined` that was raised in the current activation (its traceback has one
+    frame per activation on the stack): an error raised inside a function called from an index expression is passed on -/
 def catchNotDefined {α} (m : M α) (h : Stop → M α) : M α :=
   tryCatch m fun e =>
     match e with
-    | .diag d => if d.kind == .runtime && d.msg == .notDefined then h e else throw e
+    | .diag d =>
+      if d.kind == .runtime && d.msg == .notDefined then do
+        if d.trace.length == (← get).acts.length then h e else throw e
+      else throw e
     | _ => throw e
 
 structure Holder where
@@ -324,8 +328,9 @@ mutual
         else
           if (← get).depth + 1 > (← get).depthLimit then rtErr t .budget
           let caller ← curAct
-          modifyAct caller.id fun a => { a with switchTok := some (t.line, t.col) }
           let slots ← bindParams f t fd.params args vals []
+          -- the call site is noted after the binding: binding a BYREF argument may itself call a function, which clears the note
+          modifyAct caller.id fun a => { a with switchTok := some (t.line, t.col) }
           modify fun s => { s with depth := s.depth + 1 }
           let r ← withAct (fun id => { id := id, name := fd.name, isFn := true, retTy := fd.ret, vars := slots }) do
             match fd.body with
@@ -650,8 +655,9 @@ mutual
         else
           if (← get).depth + 1 > (← get).depthLimit then rtErr t .budget
           let caller ← curAct
-          modifyAct caller.id fun a => { a with switchTok := some (t.line, t.col) }
           let slots ← bindParams f t pd.params args vals []
+          -- the call site is noted after the binding (see callFun)
+          modifyAct caller.id fun a => { a with switchTok := some (t.line, t.col) }
           modify fun s => { s with depth := s.depth + 1 }
           withAct (fun id => { id := id, name := pd.name, vars := slots }) do
             tryCatch (runBlock f pd.body) fun e =>
